@@ -136,7 +136,13 @@ class Slicer:
             raise TypeError("Invalid slice.")
 
     def copy(self):
-        return Slicer(self.array, self.row_labels, self.col_labels, self.item)
+        # (a selection of a selection is not what `item` selects, and a PlateSlicer is built from its plate)
+        new_slicer = copy(self)
+        new_slicer.__dict__.pop('shape', None)
+        new_slicer.__dict__.pop('size', None)
+        if isinstance(new_slicer.slices, list):
+            new_slicer.slices = list(new_slicer.slices)
+        return new_slicer
 
     def parse_single(self, single) -> Tuple[int, int]:
         """
